@@ -715,7 +715,8 @@ class HyperparameterRangesImpl(HyperparameterRanges):
                     kwargs["active_choices"] = tuple(
                         self.active_config_space[name].categories
                     )
-                if isinstance(hp_range, OrdinalNearestNeighbor):
+                if isinstance(hp_range, OrdinalNearestNeighbor) and num_categories > 1:
+                    # With a single category, the equal-distance encoding is used
                     _cls = HyperparameterRangeOrdinalNearestNeighbor
                     kwargs["log_scale"] = hp_range.log_scale
                 elif isinstance(hp_range, Ordinal):
